@@ -3,6 +3,7 @@ SPEC = {
     "harness": "c19",
     "n": {"quick": 1400, "thorough": 24000},
     "shard": 100,
+    "tie_codes": (),   # every disagreement code of Check/C19.v is a failing input (strings are fully determined by the specification)
     "trusted_base": [
         "Go harness go/cmd/c19: dump of the parsed counters.CounterStyleDescriptors records (all fields exported, no hook in /repo) and, for documents, of the computed counter-reset/-set/-increment/display/content/list-style-type values of each element and pseudo-element (tree.StyleFor.Get); projection of BuildFormattingStructure's box tree on the texts of the ::marker/::before/::after text boxes in tree order",
         "the table given to the model is the closure of the rendered style under extends/fallback plus decimal (computed by the harness from the parsed records)",
@@ -12,7 +13,7 @@ SPEC = {
     ],
     "not_modelled": ["symbols() with images", "speak-as", "float: footnote counter increments", "target-counter()/target-counters(), string-set, bookmark-label", "page-based counters (page, pages) and margin boxes",
                      "the cascade and the value parsers of counter-reset/-set/-increment/content/list-style-type (their computed values are inputs of the scopes model)",
-                     "RenderValueStyle on symbols()/string styles is tied (model = implementation) and proved total, its specification theorem is stated for named styles only"],
+                     "RenderMarker on symbols()/string styles is tied (model = implementation) and proved total; its specification theorem is stated for named styles only"],
     "codes": {"1": "text produced by the implementation differs from the model (which is proved equal to the CSS Counter Styles / CSS Lists specification)",
               "3": "implementation panicked where the model (proved total) returns a string",
               "4": "model panics / runs out of fuel where the implementation returned",
@@ -28,7 +29,7 @@ SPEC = {
     "rule": "corpus/C19/*.case first (witnesses of the repaired defects); every predefined style of html5_ua.css x {range boundaries, weights, symbol-count boundaries, 0, +-1, +-(2^31-1), +-2^31, 2^53+1, +-(2^63-1)} through RenderValue and RenderMarker; all of [-300,3000] for decimal, lower-roman, upper-alpha, hebrew and 6 rotating predefined styles (all in the thorough tier); SplitMix64-seeded sets of 1-6 @counter-style rules (all systems, 0-10 symbols incl. non-ASCII and empty, ranges with infinite, pad, negative, prefix/suffix, fallback/extends graphs incl. cycles, unknown targets, names equal to system keywords or predefined styles; one quarter with malformed declarations) installed through real CSS text and rendered for [-14,34] + boundaries + big values; symbols()/string/unknown style references; intended-vs-parsed descriptor records; random ol/ul/li/div/span documents with counter-reset/-set/-increment classes on elements and ::before/::after, display none/list-item, li::marker content, list-style-type; non-trivial = the output is not the plain decimal string / a document with at least two generated texts; distinct by Coq term",
 }
 MANIFEST = {
-    "text": "Coq theorems over executable models of css/counters/counters.go and of the counter bookkeeping of html/boxes/build.go: the six Counter Styles algorithms equal their mathematical definitions for every symbol list and every integer (cyclic with mathematical mod, fixed, symbolic, alphabetic = unique bijective base-L digits, numeric = unique positional digits without leading zero, additive = the specification's greedy decomposition whose weights sum to the value); RenderValue/RenderMarker equal 'generate a counter representation' (range incl. auto bounds, negative sign, pad, fallback chain with unknown/loop -> decimal, extends with unknown/cycle -> decimal) for every well-formed rule table, name and int64 value; they never panic and terminate on every table (cycles included); the name->stack / per-depth-set traversal state always denotes the CSS 2.1/Lists instance frames (reset replaces the sibling-created instance, set/increment act on the innermost or create one, counters() outermost first, int32 clamping) and its slice operations never panic. The models are compared with /repo on generated inputs on every run.",
-    "note": "Trusted: Coq kernel (vm_compute), Go harness go/cmd/c19 (record dump, style dump, box-tree projection, reachable-table closure), generator's re-implementation of the descriptor grammar for the parse cases. No axioms (17 theorems closed under the global context). Partial: grapheme clusters approximated by code points; cascade/value parsing of counter-* properties are inputs; specification theorem for symbols()/string style references not stated (tied + totality only); MinInt64 excluded.",
+    "text": "Coq theorems over executable models of css/counters/counters.go and of the counter bookkeeping of html/boxes/build.go: the six Counter Styles algorithms equal their mathematical definitions for every symbol list and every integer (cyclic with mathematical mod, fixed, symbolic, alphabetic = unique bijective base-L digits, numeric = unique positional digits without leading zero, additive = the specification's greedy decomposition whose weights sum to the value); RenderValue/RenderMarker equal 'generate a counter representation' (range incl. auto bounds, negative sign, pad, fallback chain with unknown/loop -> decimal, extends with unknown/cycle -> decimal) for every well-formed rule table, name and int64 value, and the specification is proved deterministic (counter_repr T n v s -> RenderValue = Ok s); they never panic and terminate on every table (cycles included); the name->stack / per-depth-set traversal state always denotes the CSS 2.1/Lists instance frames (reset replaces the sibling-created instance, set/increment act on the innermost or create one, counters() outermost first, int32 clamping) and its slice operations never panic. The models are compared with /repo on generated inputs on every run.",
+    "note": "Trusted: Coq kernel (vm_compute), Go harness go/cmd/c19 (record dump, style dump, box-tree projection, reachable-table closure), generator's re-implementation of the descriptor grammar for the parse cases. No axioms (20 theorems closed under the global context). Partial: grapheme clusters approximated by code points; cascade/value parsing of counter-* properties are inputs; marker specification for symbols()/string references not stated (tied + totality only); MinInt64 excluded.",
     "technique": "Coq proof over executable model + vm_compute correspondence with the Go implementation",
 }
